@@ -102,9 +102,18 @@ def run(repo, rep, tier):
     if "by_value" in stores:
         ok = U(stores["by_value"].value) == "entry.key"
         rep.ob("C06.R1", stores["by_value"], "by_value[value] = entry.key", ok, "", key="C06.R1@add_table:by_value")
+    from ..symexec import running_max
     nk = [n for n in body_walk(at) if isinstance(n, ast.Assign) and "['next_key']" in U(n.targets[0])]
-    ok = bool(nk) and U(nk[0].value).replace(" ", "") == "max_key+1" and any(
-        isinstance(n, ast.Assign) and U(n.targets[0]) == "max_key" and U(n.value) == "entry.key" for n in ast.walk(loop))
+    ok = False
+    if nk and isinstance(nk[0].value, ast.BinOp) and isinstance(nk[0].value.op, ast.Add):
+        l_, r_ = nk[0].value.left, nk[0].value.right
+        mv = l_.id if isinstance(l_, ast.Name) and try_const(r_) == 1 else (r_.id if isinstance(r_, ast.Name) and try_const(l_) == 1 else None)
+        if mv:
+            folded = running_max(loop, mv)
+            elem = U(loop.target.elts[1]) if isinstance(loop.target, ast.Tuple) and len(loop.target.elts) == 2 else U(loop.target)
+            init = [n for n in body_walk(at) if isinstance(n, ast.Assign) and U(n.targets[0]) == mv and n.lineno < loop.lineno]
+            others = [n for n in ast.walk(loop) if isinstance(n, (ast.Assign, ast.AugAssign)) and any(isinstance(x, ast.Name) and x.id == mv and isinstance(x.ctx, ast.Store) for x in ast.walk(n))]
+            ok = folded is not None and U(folded) == f"{elem}.key" and bool(init) and try_const(init[-1].value) == 0 and len(others) == 1
     rep.ob("C06.R1", nk[0] if nk else at, "next_key = 1 + the largest key present", ok, "", key="C06.R1@add_table:next_key")
     lv = repo.func("model.py", "DataLists.lookup_value")
     ok = U(lv).replace(" ", "").endswith("returnself._datalists[table_id]['by_key'][key]") and "self.add_table(table_id)" in U(lv)
@@ -180,46 +189,34 @@ def run(repo, rep, tier):
     rep.ob("C06.R2", sb, f"reader consumes the positional fields the writer sets {sorted(written & positional)}", not missing,
            "" if not missing else f"written but never read: {missing}", key="C06.R2@rowinfo:symmetry")
 
-    # ---- R3 offsets scaling agrees
-    gs = repo.func("model.py", "get_storage_buffers_for_row")
-    mult = None
-    for n in body_walk(gs):
-        if isinstance(n, ast.If) and U(n.test) == "has_wide_offsets":
-            for c in ast.walk(n):
-                if isinstance(c, ast.BinOp) and isinstance(c.op, ast.Mult):
-                    mult = try_const(c.right) if isinstance(try_const(c.right), int) else try_const(c.left)
-                if isinstance(c, ast.BinOp) and isinstance(c.op, ast.LShift):
-                    mult = 1 << try_const(c.right)
-    shift = None
-    wide_true = False
-    for n in body_walk(rri):
-        if isinstance(n, ast.Assign) and "offsets[" in U(n.targets[0]):
-            v = n.value
-            if isinstance(v, ast.BinOp) and isinstance(v.op, ast.RShift):
-                shift = try_const(v.right)
-            elif isinstance(v, ast.BinOp) and isinstance(v.op, ast.FloorDiv):
-                d = try_const(v.right)
-                shift = d.bit_length() - 1 if isinstance(d, int) and d & (d - 1) == 0 else None
-            else:
-                shift = 0
-        if isinstance(n, ast.Assign) and U(n.targets[0]) == "row_info.has_wide_offsets":
-            wide_true = try_const(n.value) is True
+    # ---- R3 offsets: writer (row packer) and reader (row splitter) agree
+    from ..rowpack import model as rowpack_model
+    from ..rowread import model as rowread_model
+    rp = rowpack_model(repo)
+    rr = rowread_model(repo)
+    gs = rr["func"]
+    shift = rp["roles"].get("shift") if rp["roles"] else None
+    wide_true = rp.get("wide") is True
+    mult = rr["scale"]
     ok = mult is not None and shift is not None and ((wide_true and mult == 1 << shift) or (not wide_true and shift == 0))
     rep.ob("C06.R3", rri, f"writer stores offset >> {shift} with has_wide_offsets={wide_true}; reader multiplies by {mult} when wide", ok,
            "" if ok else "reader and writer disagree on the unit of cell offsets", key="C06.R3@offsets:scale")
-    src = U(gs).replace(" ", "")
-    ok = "array('h',offsets).tolist()" in src
-    pk = [n for n in body_walk(rri) if isinstance(n, ast.Call) and last_attr(n.func) == "pack" and "offsets" in U(n)]
-    ok = ok and bool(pk) and "h'" in U(pk[0].args[0]) and U(pk[0].args[0]).startswith("f'<")
+    wfmt = not any("cell_offsets is not" in x for x in rp["problems"])
+    ok = rr["decode"] in ("array-h", "unpack-h") and wfmt
     rep.ob("C06.R3", gs, "offsets are signed 16-bit little-endian on both sides", ok, "", key="C06.R3@offsets:type")
-    ok = any(isinstance(n, ast.If) and U(n.test).replace(" ", "") == "start<0" for n in body_walk(gs)) and "[-1]*len(data[0])" in U(rri).replace(" ", "")
-    rep.ob("C06.R3", gs, "negative offset = no cell, on both sides", ok, "", key="C06.R3@offsets:empty")
-    # end of a cell = next non-negative offset or end of buffer
-    ok = "ifx>=0" in src and "end=len(storage_buffer)" in src and "storage_buffer[start:end]" in src
-    rep.ob("C06.R3", gs, "cell record ends at the next stored cell or the end of the buffer", ok, "", key="C06.R3@offsets:end")
+    ok = rr["empty_ok"] and rp.get("offsets_init_ok", False)
+    rep.ob("C06.R3", gs, "negative offset = no cell, on both sides", ok, "; ".join(x for x in rr["problems"] + rp["problems"] if "negative offset" in x or "-1 slot" in x), key="C06.R3@offsets:empty")
+    endp = [x for x in rr["problems"] if any(k in x for k in ("next offset", "first non-negative", "end of a record", "end of the last record", "leaves the end"))]
+    rep.ob("C06.R3", rr["slice"], f"cell record ends at the next stored cell or the end of the buffer (values reaching the end: {rr['end_kinds']})", not endp,
+           "; ".join(endp), key="C06.R3@offsets:end")
+    rest = [x for x in rr["problems"] if x not in endp and "negative offset" not in x]
+    if rest:
+        rep.ob("C06.R3", gs, "row splitter", False, "; ".join(rest), key="C06.R3@offsets:other")
     # the scaled flag must come from the row record itself
     call = [n for n in body_walk(sb) if isinstance(n, ast.Call) and call_name(n) == "get_storage_buffers_for_row"]
-    ok = bool(call) and [U(a) for a in call[0].args] == [f"{rvar}.cell_storage_buffer", f"{rvar}.cell_offsets", "self.number_of_columns(table_id)", f"{rvar}.has_wide_offsets"]
+    from ..symexec import _unwrap_alias
+    got = [U(_unwrap_alias(sb, a)).replace(" ", "") for a in call[0].args] if call and not call[0].keywords else []
+    ok = got == [f"{rvar}.cell_storage_buffer", f"{rvar}.cell_offsets", "self.number_of_columns(table_id)", f"{rvar}.has_wide_offsets"]
     rep.ob("C06.R3", call[0] if call else sb, "row buffers decoded with the row's own offsets and width flag", ok, "", key="C06.R3@offsets:args")
 
     # ---- R4 container form / member order independence
